@@ -23,6 +23,7 @@ TrRank == [v \in DOMAIN Cfg.w |-> 0]                 \* unused: the id order is 
 TrRef == [best |-> Cfg.refBest, fin |-> Cfg.refFin, seen |-> {}]   \* the REAL uninterrupted node's result
 
 Ev == Trace[l]
+InStream == i <= Len(Stream)      \* an import is in flight only while the stream has a current block
 IsEv(name) == l <= Len(Trace) /\ Ev.e = name
 
 TInit == /\ HWMInit /\ Cfg.e = "Config" /\ Init /\ l = 2
@@ -37,13 +38,13 @@ TSkip == /\ IsEv("Skip") /\ i <= Len(Stream) /\ Cur = Ev.b /\ Skip
             \/ Ev.why = "bft-rejected" /\ Cur \notin dBlk /\ Par(Cur) \in dBlk /\ ~IsAnc(mFin, Par(Cur))
 TBegin == IsEv("Begin") /\ i <= Len(Stream) /\ Cur = Ev.b /\ Begin
 \* a state write that is not the last one of the block: orphan trie nodes, no abstract change
-TStatePart == /\ IsEv("W") /\ Ev.cls = "state" /\ ~Ev.last /\ up /\ pc = "state" /\ Cur = Ev.b
+TStatePart == /\ IsEv("W") /\ Ev.cls = "state" /\ ~Ev.last /\ up /\ pc = "state" /\ InStream /\ Cur = Ev.b
               /\ UNCHANGED vars
-TState == IsEv("W") /\ Ev.cls = "state" /\ Ev.last /\ Cur = Ev.b /\ WState
-TIdx == IsEv("W") /\ Ev.cls = "idx" /\ Cur = Ev.b /\ WIdx
-TBlk == IsEv("W") /\ Ev.cls = "blk" /\ Cur = Ev.b /\ WBlk
-TQ == IsEv("W") /\ Ev.cls = "q" /\ Cur = Ev.b /\ WQ
-TFin == IsEv("W") /\ Ev.cls = "fin" /\ Cur = Ev.b /\ WFin
+TState == IsEv("W") /\ Ev.cls = "state" /\ Ev.last /\ InStream /\ Cur = Ev.b /\ WState
+TIdx == IsEv("W") /\ Ev.cls = "idx" /\ InStream /\ Cur = Ev.b /\ WIdx
+TBlk == IsEv("W") /\ Ev.cls = "blk" /\ InStream /\ Cur = Ev.b /\ WBlk
+TQ == IsEv("W") /\ Ev.cls = "q" /\ InStream /\ Cur = Ev.b /\ WQ
+TFin == IsEv("W") /\ Ev.cls = "fin" /\ InStream /\ Cur = Ev.b /\ WFin
 \* the import returned: nothing may be pending, and best / finalized are what the specification computed
 TDone == /\ IsEv("Done") /\ up /\ pc = "idle" /\ i > 1 /\ Stream[i - 1] = Ev.b
          /\ dBest = Ev.best /\ mFin = Ev.fin /\ dFin = Ev.fin
